@@ -103,6 +103,17 @@ func (s *sim) opIterate() {
 			}
 			if !seekAllowed(sp) {
 				sp.seekAt, sp.seekKey = -1, nil
+			} else if sp.tgt >= 0 {
+				// prefixIterator.Seek opens a second underlying iterator and drops it
+				// unclosed (it assigns it to a copy of itself); on badger that pins a
+				// 17 MB memtable arena for the life of the process. One Seek on a view
+				// in every third run is enough to keep observing the defect.
+				if s.viewSeekLeft == 0 {
+					sp.seekAt, sp.seekKey = -1, nil
+				} else {
+					s.viewSeekLeft--
+					s.c.Probe("view-seek")
+				}
 			}
 		}
 		if s.ops.Bool(1, 8) {
